@@ -344,13 +344,19 @@ func checkDiff(e *Env, r *cliRunner, c *CliCase) {
 	// model difference set
 	want := map[string]map[diffKey][2]float64{}
 	missing := false
+	dstRel := func(rel string) string {
+		if c.Cmd.Dest != "" && !hasMeta(c.Cmd.Src) {
+			return c.Cmd.Dest
+		}
+		return rel
+	}
 	for _, rel := range rels {
-		if srcs[rel].Absent || dsts[rel].Absent {
+		if srcs[rel].Absent || dsts[dstRel(rel)].Absent {
 			missing = true
 			continue
 		}
 		sv, err1 := viewFile(filepath.Join(e.Dir, "src", rel), from, until, now)
-		dv, err2 := viewFile(filepath.Join(e.Dir, "dst", rel), from, until, now)
+		dv, err2 := viewFile(filepath.Join(e.Dir, "dst", dstRel(rel)), from, until, now)
 		if err1 != nil || err2 != nil {
 			e.Skip("world-unreadable")
 			return
@@ -461,6 +467,9 @@ func checkDiff(e *Env, r *cliRunner, c *CliCase) {
 		sc.SwapBases = true
 		sc.SrcRemote = false
 		sc.DstRemote = false
+		if sc.Dest != "" && !hasMeta(sc.Src) {
+			sc.Src, sc.Dest = sc.Dest, sc.Src
+		}
 		sres := r.run1(sc, "swap")
 		if len(sres.panics) == 0 && errors.Is(sres.err, cmd.ErrDiffFound) != gotDiff {
 			e.Violate("C09.symmetric", "diff src->dest says difference=%v, dest->src says %v (%v)", gotDiff, errors.Is(sres.err, cmd.ErrDiffFound), sres.err)
@@ -471,6 +480,7 @@ func checkDiff(e *Env, r *cliRunner, c *CliCase) {
 	self.SwapBases = false
 	self.SrcRemote = false
 	self.DstRemote = false
+	self.Dest = ""
 	selfRes := runSelfDiff(e, r, self)
 	if selfRes != nil && len(selfRes.panics) == 0 && selfRes.err != nil && !srcsAnyAbsent(srcs, rels) {
 		e.Violate("C09.self", "diff of a file with itself returned %v", selfRes.err)
